@@ -657,7 +657,7 @@ input_stmt = (
     input_kw.suppress() -
     semicolon[0, 1] +
     (
-        string_literal[0, 1] +
+        string_literal +
         (semicolon | comma)
     )[0, 1] +
     delimited_list(lvalue, delim=',')
